@@ -19,13 +19,16 @@ CLAIMED = {
          "recurrence incl. the three-tick clear rule; zero jerk coincides with move_dist_lt. Correspondence with ebb_calc.py over the firmware-valid domain under varying mpmath precision.",
          NOTE_COMMON + "move_dist_t3 and rate_t3 are re-translated from the source on every run (tools/py2v.py) and proved equal to the model. The accumulated rounding error of the jerk/6 path staying below 1/2 before round() is sampled, not proved.",
          "DESIGN.md section 5, C02"),
- "C03": ("Coq proof: O(1) checker equivalent to the tick-by-tick 'first tick reaching the budget' spec for all integers; every implementation output decided by it",
+ "C03": ("Coq proof: exact model of calculate_lm proved to return the tick-by-tick 'first tick reaching the budget' answer for all integers in the domain; O(1) checker equivalent to the spec; implementation compared with the model and decided by the checker",
+         "Theorem C03_model_correct: for all integers, the exact-arithmetic model of calculate_lm (branch structure, reversal tick, quadratic solve with both ceilings via the integer square root, "
+         "discarding of roots before the reversal, legacy mirror form) returns an answer that passes lm_check whenever that answer keeps the request in the property's domain "
+         "(accumulator in [0,2^31) or clear, per-tick |rate| <= 2^31-1 through the reported duration); proved for forward-starting moves in four cases and for backward-starting moves through the mirror symmetry of model and specification. "
          "Theorem C03_checker_iff_spec: for all integers lm_check (closed-form total, closed-form count of steps taken around the single sign change of the rate) holds of an output "
          "iff the output is the first tick at which the steps taken under the C01 recurrence reach the budget, with that tick's position and accumulator; C03_consequence: the accumulator "
          "is in [0,2^31) and the timed-move recurrence at the reported duration reproduces position and accumulator; C03_invalid. calculate_lm / moveTimeLM outputs on valid moves "
          "(reversals at tick 1,2,3,.., step-boundary landings, durations to 2^32) are decided by the checker inside Coq (translation validation of outputs). The reversal branches of the "
          "tree as found violated the property and were repaired in /repo.",
-         NOTE_COMMON + "No theorem is stated about the floating/mpmath text of calculate_lm itself (sqrt, ceil): the tie to the code is the proved checker applied to sampled outputs.",
+         NOTE_COMMON + "The model reads mpmath at 30 digits as exact arithmetic (sqrt, ceil, floor become integer-square-root computations); that mpmath's rounding never changes a ceiling on the domain is sampled (knife-edge families), not proved. Every implementation output is compared with the model and independently decided by the proved checker.",
          "DESIGN.md section 5, C03"),
  "C04": ("Coq proof: induction over all call histories and I/O scripts on a model of all 32 request methods + connect/disconnect; correspondence by history replay",
          "Theorems C04_step_silent, C04_err_first_wins, C04_history, C04_only_connect_writes: for every history of public calls, every start state and every I/O script (a fault at any read or write), "
